@@ -246,6 +246,12 @@ def variant(rng, case):
     c = copy.deepcopy(case)
     n = c["n"]
     r = rng.random()
+    # multicomponent diffusion sub-steps with the fastest species (H+, ~1e-8 m2/s): 2.25 * 2 D dt / L^2 mixruns per shift;
+    # set-ups that would need an astronomic number of mixruns are not turned into multi_d / implicit cases
+    lmin = min(Fraction(x) for x in c["lengths"])
+    mcd_runs = 1 + 4.5 * 1e-8 * float(Fraction(c["timest"])) / float(lmin * lmin)
+    if r < 0.4 and n * c["shifts"] * mcd_runs > 40000:
+        r = 0.4 + 0.6 * rng.random()
     if r < 0.25:
         c["mcd"] = {"dw": rng.choice(["1e-9", "0.3e-9", "2e-9"]), "por": rng.choice(["0.3", "1", "0.1"])}
         c["variant"] = "mcd"
